@@ -167,17 +167,19 @@ def genesisBuild (protocolVersion : Nat) : Res Unit :=
 
 /-- `impl ProtoFmt for Genesis :: read` = `GenesisRaw::read(r)?.with_hash()` (genesis.rs:36-55, 126-128).
 `legacy`: the `match protocol_version.0` of `read` ends in `_ => unreachable!()` instead of `bail!`. -/
-def genesisRead (legacy : Bool) (v : PV) : Res Unit := do
-  let pver ← Res.ofOption "protocol_version" (v.fieldNat? "protocol_version")
-  if pver = 2 then
-    match v.field? "validators_schedule" with
-    | none => pure ()
-    | some s => do let _ ← scheduleRead s; pure ()
-  else if legacy then Res.panic "genesis.rs: unreachable!() in GenesisRaw::read"
-  else Res.err "unsupported protocol version"
-  let _ ← Res.ofOption "chain_id" (v.fieldNat? "chain_id")
-  let _ ← Res.ofOption "fork_number" (v.fieldNat? "fork_number")
-  let _ ← Res.ofOption "first_block" (v.fieldNat? "first_block")
+def genesisRead (legacy : Bool) (v : PV) : Res Unit :=
+  (Res.ofOption "protocol_version" (v.fieldNat? "protocol_version")).bind fun pver =>
+  let schedule : Res Unit :=
+    if pver = 2 then
+      match v.field? "validators_schedule" with
+      | none => .ok ()
+      | some s => (scheduleRead s).bind fun _ => .ok ()
+    else if legacy then .panic "genesis.rs: unreachable!() in GenesisRaw::read"
+    else .err "unsupported protocol version"
+  schedule.bind fun _ =>
+  (Res.ofOption "chain_id" (v.fieldNat? "chain_id")).bind fun _ =>
+  (Res.ofOption "fork_number" (v.fieldNat? "fork_number")).bind fun _ =>
+  (Res.ofOption "first_block" (v.fieldNat? "first_block")).bind fun _ =>
   genesisBuild pver
 
 def pcapOf (v : PV) : Mux.PCap := ⟨v.fieldNat? "id", v.fieldNat? "max_streams"⟩
